@@ -49,19 +49,15 @@ theorem length_le_lenPrefixed : ∀ ns : List Bytes, ns.length ≤ (lenPrefixed 
     have := length_le_lenPrefixed rest
     rw [lenPrefixed_length_cons]; simp; omega
 
-theorem end_facts (s pre : Bytes) (hs : s = pre ++ lenPrefixed []) (hlt : s.length < U32) :
-    ¬ (pre.length < (s.length - 4) % U32) ∧ ¬ (pre.length < s.length % U32) := by
+theorem end_facts (s pre : Bytes) (hs : s = pre ++ lenPrefixed []) (_hlt : s.length < U32) :
+    ¬ (pre.length + 4 < s.length) ∧ ¬ (pre.length + 4 ≤ s.length) := by
   have hl : s.length = pre.length := by simp [hs, lenPrefixed]
-  rw [U32_eq] at hlt
-  constructor
-  · rw [U32_eq, Nat.mod_eq_of_lt (by omega)]; omega
-  · rw [U32_eq, Nat.mod_eq_of_lt (by omega)]; omega
+  constructor <;> omega
 
 theorem step_facts (s pre n : Bytes) (rest : List Bytes) (hs : s = pre ++ lenPrefixed (n :: rest))
     (hlt : s.length < U32) (hne : n ≠ []) :
-    pre.length < (s.length - 4) % U32 ∧ pre.length < s.length % U32 ∧
-    be32 s pre.length = n.length ∧ (pre.length + 4) % U32 = pre.length + 4 ∧
-    (pre.length + 4 + n.length) % U32 = pre.length + 4 + n.length ∧
+    pre.length + 4 < s.length ∧ pre.length + 4 ≤ s.length ∧
+    be32 s pre.length = n.length ∧ ¬ (n.length > s.length - (pre.length + 4)) ∧
     slice s (pre.length + 4) (pre.length + 4 + n.length) = n ∧
     byteAt s (pre.length + 4) = n.headD 0 ∧
     s = (pre ++ put32 n.length ++ n) ++ lenPrefixed rest ∧
@@ -73,12 +69,11 @@ theorem step_facts (s pre n : Bytes) (rest : List Bytes) (hs : s = pre ++ lenPre
     simp [hs]; omega
   have hlt' := hlt
   rw [U32_eq] at hlt'
-  refine ⟨?_, ?_, ?_, ?_, ?_, ?_, ?_, ?_, ?_, ?_⟩
-  · rw [U32_eq, Nat.mod_eq_of_lt (by omega)]; omega
-  · rw [U32_eq, Nat.mod_eq_of_lt (by omega)]; omega
+  refine ⟨?_, ?_, ?_, ?_, ?_, ?_, ?_, ?_, ?_⟩
+  · omega
+  · omega
   · rw [hs]; exact be32_at _ _ _ (by rw [U32_eq]; omega)
-  · rw [U32_eq]; exact Nat.mod_eq_of_lt (by omega)
-  · rw [U32_eq]; exact Nat.mod_eq_of_lt (by omega)
+  · omega
   · have := slice_at (pre ++ put32 n.length) n (lenPrefixed rest)
     simp only [List.length_append, put32_length, List.append_assoc] at this
     rw [hs]; exact this
@@ -104,11 +99,9 @@ theorem nfs_go (s : Bytes) : ∀ (rest : List Bytes) (pre : Bytes) (fuel : Nat) 
   | cons n rest ih =>
     intro pre fuel acc hs hlt hne hf
     obtain ⟨f, rfl⟩ : ∃ f, fuel = f + 1 := ⟨fuel - 1, by omega⟩
-    obtain ⟨hg, _, hbe, hp1, hp2, hsl, _, hs', hl', hle⟩ := step_facts s pre n rest hs hlt (hne n (by simp))
+    obtain ⟨hg, _, hbe, hp1, hsl, _, hs', hl', hle⟩ := step_facts s pre n rest hs hlt (hne n (by simp))
     rw [nalusFromSample.go]
-    simp only [hg, if_true, hbe, hp1, hp2, hsl]
-    have hle : ¬ (pre.length + 4 + n.length > s.length) := by omega
-    simp only [hle, if_false]
+    simp only [hg, if_true, hbe, hp1, if_false, hsl]
     have := ih (pre ++ put32 n.length ++ n) f (acc ++ [n]) hs' hlt
       (fun m hm => hne m (by simp [hm])) (by simp at hf; omega)
     rw [hl'] at this
@@ -126,9 +119,9 @@ theorem nt_go_all (c : Codec) (s : Bytes) : ∀ (rest : List Bytes) (pre : Bytes
   | cons n rest ih =>
     intro pre fuel acc hs hlt hne hf
     obtain ⟨f, rfl⟩ : ∃ f, fuel = f + 1 := ⟨fuel - 1, by omega⟩
-    obtain ⟨hg, _, hbe, hp1, hp2, hsl, hb, hs', hl', hle⟩ := step_facts s pre n rest hs hlt (hne n (by simp))
+    obtain ⟨hg, _, hbe, hp1, hsl, hb, hs', hl', hle⟩ := step_facts s pre n rest hs hlt (hne n (by simp))
     rw [naluTypes.go]
-    simp only [hg, if_true, hbe, hp1, hp2, hb, Bool.false_eq_true, false_and, if_false]
+    simp only [hg, if_true, hbe, hp1, hb, Bool.false_eq_true, false_and, if_false]
     have := ih (pre ++ put32 n.length ++ n) f (acc ++ [c.typeOf (n.headD 0)]) hs' hlt
       (fun m hm => hne m (by simp [hm])) (by simp at hf; omega)
     rw [hl'] at this
@@ -146,9 +139,9 @@ theorem ct_go (c : Codec) (t0 : Nat) (s : Bytes) : ∀ (rest : List Bytes) (pre 
   | cons n rest ih =>
     intro pre fuel hs hlt hne hf
     obtain ⟨f, rfl⟩ : ∃ f, fuel = f + 1 := ⟨fuel - 1, by omega⟩
-    obtain ⟨hg, _, hbe, hp1, hp2, hsl, hb, hs', hl', hle⟩ := step_facts s pre n rest hs hlt (hne n (by simp))
+    obtain ⟨hg, _, hbe, hp1, hsl, hb, hs', hl', hle⟩ := step_facts s pre n rest hs hlt (hne n (by simp))
     rw [containsType.go]
-    simp only [hg, if_true, hbe, hp1, hp2, hb]
+    simp only [hg, if_true, hbe, hp1, if_false, hb]
     have := ih (pre ++ put32 n.length ++ n) f hs' hlt
       (fun m hm => hne m (by simp [hm])) (by simp at hf; omega)
     rw [hl'] at this
@@ -173,12 +166,9 @@ theorem tbs_go : ∀ (rest : List Bytes) (pre : Bytes) (fuel : Nat),
   | cons n rest ih =>
     intro pre fuel hlt hne hf
     obtain ⟨f, rfl⟩ : ∃ f, fuel = f + 1 := ⟨fuel - 1, by omega⟩
-    obtain ⟨_, hg, hbe, hp1, hp2, hsl, hb, hs', hl', hle⟩ := step_facts _ pre n rest rfl hlt (hne n (by simp))
+    obtain ⟨_, hg, hbe, hp1, hsl, hb, hs', hl', hle⟩ := step_facts _ pre n rest rfl hlt (hne n (by simp))
     rw [toByteStream]
-    simp only [hg, if_true, hbe]
-    have hp3 : (pre.length + n.length + 4) % U32 = pre.length + 4 + n.length := by
-      rw [← hp2]; congr 1; omega
-    rw [hp3]
+    simp only [hg, if_true, hbe, hp1, if_false]
     have hpatch : patch4 (pre ++ lenPrefixed (n :: rest)) pre.length [0, 0, 0, 1]
         = (pre ++ [0, 0, 0, 1] ++ n) ++ lenPrefixed rest := by
       simp [patch4, lenPrefixed_cons, put32_eq]
